@@ -17,7 +17,7 @@ META = {
     "after the result exists; 3 model shapes (derived + readout + named/computed coefficients, surrogate); every ordered pair (quick) / "
     "triple (thorough) of reads from a catalogue of 14 views incl. all three normalisation shapes, producers/consumers scaled or not",
     "stubs": ["pd/np/float/isinstance module globals of mxlpy.model and mxlpy.simulation rebound to proxies"],
-    "outside": "producers/consumers for coefficients whose sign depends on the state or differs between segments; more than 3 segments",
+    "outside": "producers/consumers for coefficients whose sign depends on the state; which fluxes are listed when a coefficient's sign differs between segments (only the scaling of what is listed is checked there); more than 3 segments",
     "assumptions_list": ["real arithmetic", "normalisers non-zero (recorded as division assumptions)"],
 }
 
@@ -91,6 +91,8 @@ class Views(Scenario):
             pk = dict(base_p)
             if k > 0:
                 pk["k1"] = ctx.real(f"seg{k}_k1")
+                if any("signflip" in r for r in self.reads) and "n" in pk:
+                    pk["n"] = ctx.real(f"seg{k}_n")  # the named coefficient itself differs between segments
             times, states = [], []
             for r_i in range(nrows):
                 t = ctx.real(f"t{row}")
@@ -178,6 +180,27 @@ class Views(Scenario):
                                   include_derived_variables=True, include_reactions=True, include_surrogate_variables=True,
                                   include_surrogate_fluxes=True, include_readouts=True)
                 self.compare(ctx, tag, df, orows, sets["args_all"], env)
+            elif read in ("producers_scaled_signflip", "consumers_scaled_signflip"):
+                # a coefficient whose sign differs between segments: which fluxes count as producers there is left open,
+                # but whatever is reported "scaled" is the flux times that row's coefficient (minus it for consumers)
+                prod = read.startswith("producers")
+                fn = sim.get_producers if prod else sim.get_consumers
+                df = fn(var0, scaled=True)
+                flipped = False
+                c0 = orows[0]["coef"]
+                for o in orows[1:]:
+                    for (cpd, rn), c in o["coef"].items():
+                        if cpd == var0 and bool((c > 0) != (c0[(cpd, rn)] > 0)):
+                            flipped = True
+                ctx.assume(flipped)
+                if len(df) == len(orows):
+                    for i, o in enumerate(orows):
+                        for c in df.columns:
+                            cell = df[c].iloc[i]
+                            if (var0, c) not in o["coef"] or (isinstance(cell, float) and cell != cell):
+                                continue
+                            k = o["coef"][(var0, c)]
+                            ctx.eq(f"{tag}: [{i},{c}] = flux x coefficient of its segment", cell, o["env"][c] * (k if prod else -k))
             elif read in ("producers", "consumers", "producers_scaled", "consumers_scaled"):
                 prod = read.startswith("producers")
                 scaled = read.endswith("scaled")
@@ -256,6 +279,9 @@ def scenarios(tier, seed):
             for c in combos:
                 scs.append(Views(spec, layout, c))
     scs.append(Views(sp[0], (2, 1), ("fluxes", "rhs"), late_change=False))
+    # a parameter-dependent coefficient whose sign differs between segments, scaled views
+    scs.append(Views(sp[0], (2, 1), ("producers_scaled_signflip",)))
+    scs.append(Views(sp[0], (1, 2), ("consumers_scaled_signflip", "fluxes")))
     # minimal scenarios for state-dependent coefficients in producers/consumers (sign/scale taken at the initial state)
     scs.append(Views(sp[1], (2, 1), ("producers_scaled",)))
     scs.append(Views(sp[1], (2, 1), ("consumers",)))
